@@ -38,6 +38,7 @@ namespace sim
 		, m_listen_socket(ios)
 		, m_client_connection(ios)
 		, m_server_connection(ios)
+		, m_connecting(false)
 		, m_writing_to_server(false)
 		, m_num_client_in_bytes(0)
 		, m_num_server_out_bytes(0)
@@ -195,8 +196,13 @@ namespace sim
 			, out_request.data(), out_request.size());
 		m_num_server_out_bytes += int(out_request.size());
 
+		// the request was added to the send buffer. If we're still looking up or
+		// connecting to the server, it's sent once the connection is established
+		if (m_connecting) return;
+
 		if (!m_server_connection.is_open())
 		{
+			m_connecting = true;
 			boost::system::error_code err;
 			tcp::endpoint target(make_address(host.c_str(), err)
 				, static_cast<unsigned short>(port));
@@ -259,6 +265,7 @@ namespace sim
 
 	void http_proxy::on_connected(boost::system::error_code const& ec)
 	{
+		m_connecting = false;
 		if (ec)
 		{
 			std::printf("http_proxy::on_connected() connection failed: %s\n", ec.message().c_str());
@@ -347,6 +354,7 @@ namespace sim
 		m_num_client_in_bytes = 0;
 		m_num_server_out_bytes = 0;
 		m_num_in_bytes = 0;
+		m_connecting = false;
 
 		error_code err;
 		m_client_connection.close(err);
